@@ -1,8 +1,8 @@
 /-
   C09 — whitespace between tokens never changes what is parsed.
 
-  Proved so far (partial; `ws_insensitive` for the enum parser over all spacings needs the master
-  theorem (E), DESIGN.md §6 — decided for the code meanwhile by the `surface` stream):
+  Basic facts (the main theorems — any number of spaces at any token boundary, both pipelines, and the macro
+  path — are in `C09b.lean`, corollaries of the master theorem `Proofs/MRT/*`):
     * the lexical parser ignores EVERY Unicode whitespace character, anywhere (all spacings at once);
     * the inline-macro path strips exactly the characters the lexical parser strips;
     * the enum parser's `skip spaces` consumes any number of spaces and is idempotent.
